@@ -159,9 +159,18 @@ def verify_case(case, repo=None, summaries_lib=None, seed=0, scope=None):
             S = ctx.get("S")
             inp = ctx.get("inp")
 
-            def prims_of(model):
+            def prims_of(model, neg=None, _solver=p.solver):
+                """primitives of a counter-model; a SMALL one is looked for first (readable, replayable)."""
                 try:
-                    return S.prims_from_model(model) if (S is not None and model is not None) else None
+                    if S is None or model is None:
+                        return None
+                    if neg is not None:
+                        for bound in (24, 200):
+                            _solver.set("timeout", 3000)
+                            if _solver.check(neg, *S.bound_constraints(bound)) == z3.sat:
+                                model = _solver.model()
+                                break
+                    return S.prims_from_model(model)
                 except Exception as ex:  # pragma: no cover
                     return {"_error": repr(ex)}
 
@@ -192,7 +201,8 @@ def verify_case(case, repo=None, summaries_lib=None, seed=0, scope=None):
                                                              f"{_short(p.value)}: {type(ex).__name__}: {ex}")
                         continue
                     st, m, dt = _check(solver, _tobool(cond), case.timeout_ms)
-                    res.v(name).add(st, dt, prims_of(m), f"returned {_short(p.value)}")
+                    res.v(name).add(st, dt, prims_of(m, _neg(_tobool(cond)) if st == "sat" and not isinstance(cond, bool)
+                                                     else None), f"returned {_short(p.value)}")
                 for exc, w in raises.items():
                     cond = _tobool(w(inp))
                     st, m, dt = _check(solver, _neg(cond), case.timeout_ms)
